@@ -6,14 +6,14 @@ import OdxVerif.Proofs.FlatMsg
 namespace OdxVerif.Codec
 open OdxVerif.Bits OdxVerif.OdxM
 
-/-- the value the caller supplied for the object, if it is an integer the object can represent -/
-def Obj.pick (values : List (String × PVal)) (o : Obj) : Option Int :=
+/-- the value the caller supplied for the object, if it is one the object can represent -/
+def Obj.pick (values : List (String × PVal)) (o : Obj) : Option IVal :=
   match lookup o.name values with
-  | some (.atom (.int v)) => if int32RangeOk o.enc o.bl v then some v else none
+  | some (.atom v) => if o.accepts v then some v else none
   | _ => none
 
-theorem Obj.pick_some (values : List (String × PVal)) (o : Obj) (ho : o.ok) (v : Int) (h : o.pick values = some v) :
-    lookup o.name values = some (.atom (.int v)) ∧ int32InRange o.enc o.bl v := by
+theorem Obj.pick_some (values : List (String × PVal)) (o : Obj) (ho : o.ok) (v : IVal) (h : o.pick values = some v) :
+    lookup o.name values = some (.atom v) ∧ o.inRange v := by
   unfold Obj.pick at h
   split at h
   · rename_i w hw
@@ -21,52 +21,109 @@ theorem Obj.pick_some (values : List (String × PVal)) (o : Obj) (ho : o.ok) (v 
     · rename_i hr
       simp only [Option.some.injEq] at h
       subst h
-      exact ⟨hw, (rangeOk_iff o.enc o.bl ho.2.1 w).mp hr⟩
+      exact ⟨hw, (o.accepts_iff ho w).mp hr⟩
     · cases h
   · cases h
 
-/-- a value that is not a representable integer is rejected by the parameter's encoder with `EncodeError` -/
+/-- the library's own error classes of the encoder -/
+def EncErr (e : Err) : Prop := e = .encode ∨ e = .odx
+
+/-- an `A_UINT32` value that is negative or too wide is rejected -/
+theorem emplaceAtomic_uint32_reject (enc : Option Enc) (he : enc = none ∨ enc = some .none_) (bl : Nat) (i : Int)
+    (hr : ¬ (0 ≤ i ∧ i < 2 ^ bl)) (hl : Bool) :
+    ∃ e, EncErr e ∧ ∀ s : EncState, emplaceAtomic (.int i) bl .uint32 enc hl none s true = .error (e, s) := by
+  by_cases h64 : 64 < bl
+  · exact ⟨.encode, Or.inl rfl, fun s => by simp [emplaceAtomic, bind, run_bind, run_ite, run_raise, h64]⟩
+  by_cases hneg : i < 0
+  · refine ⟨.odx, Or.inr rfl, fun s => ?_⟩
+    simp [emplaceAtomic, rawOfUInt32, bind, run_bind, run_ite, run_raise, h64, hneg, odxraise]
+  · have hge : (2:Int) ^ bl ≤ i := by omega
+    have hnat : i.natAbs = i.toNat := by omega
+    have hbit : bl < bitLength i.toNat := by
+      apply Nat.lt_of_not_le
+      intro hle
+      have := (bitLength_le_iff _ _).mp hle
+      have : ((2 ^ bl : Nat) : Int) = (2:Int) ^ bl := by simp
+      omega
+    refine ⟨.encode, Or.inl rfl, fun s => ?_⟩
+    rcases he with rfl | rfl <;>
+      simp [emplaceAtomic, rawOfUInt32, bind, pure, run_bind, run_ite, run_pure, run_raise, h64, hneg, hnat, hbit, odxraise]
+
+/-- a value the object cannot represent is rejected by the parameter's encoder with `EncodeError` (or, for a
+    negative `A_UINT32`, a plain `OdxError`) -/
 theorem encodeParam_obj_bad (o : Obj) (ho : o.ok) (values : List (String × PVal)) (hp : o.pick values = none)
     (fuel : Nat) (s : EncState) :
-    ∃ s', encodeParam (fuel + 2) o.toParam (lookupV o.name values) s true = .error (.encode, s') := by
+    ∃ e s', encodeParam (fuel + 2) o.toParam (lookupV o.name values) s true = .error (e, s') ∧ EncErr e := by
   obtain ⟨hk, hbl, hbl64⟩ := ho
   unfold Obj.pick at hp
   cases hl : lookup o.name values with
   | none =>
-    simp [lookupV, hl, Obj.toParam, encodeParam, bind, run_bind, run_modifyS, odxraise]
+    refine ⟨.encode, ?_, ?_, Or.inl rfl⟩
+    rotate_left
+    · simp [lookupV, hl, Obj.toParam, encodeParam, bind, run_bind, run_modifyS, odxraise]
+      rfl
   | some pv =>
     rw [hl] at hp
     cases pv with
     | none =>
-      simp [lookupV, hl, Obj.toParam, encodeParam, bind, run_bind, run_modifyS, odxraise]
+      refine ⟨.encode, ?_, ?_, Or.inl rfl⟩
+      rotate_left
+      · simp [lookupV, hl, Obj.toParam, encodeParam, bind, run_bind, run_modifyS, odxraise]
+        rfl
     | list xs =>
-      simp [lookupV, hl, Obj.toParam, encodeParam, encodeDop, bind, run_bind, run_modifyS, run_raise]
+      refine ⟨.encode, ?_, ?_, Or.inl rfl⟩
+      rotate_left
+      · simp [lookupV, hl, Obj.toParam, encodeParam, encodeDop, bind, run_bind, run_modifyS, run_raise]
+        rfl
     | dict xs =>
-      simp [lookupV, hl, Obj.toParam, encodeParam, encodeDop, bind, run_bind, run_modifyS, run_raise]
+      refine ⟨.encode, ?_, ?_, Or.inl rfl⟩
+      rotate_left
+      · simp [lookupV, hl, Obj.toParam, encodeParam, encodeDop, bind, run_bind, run_modifyS, run_raise]
+        rfl
     | atom a =>
-      cases a with
-      | int v =>
-        simp only at hp
+      simp only at hp
+      have hacc : o.accepts a = false := by
+        cases h : o.accepts a
+        · rfl
+        · rw [h] at hp; simp at hp
+      unfold Obj.accepts at hacc
+      unfold Obj.encOk at hk
+      cases hkind : o.kind <;> cases a <;> simp only [hkind] at hacc hk
+      -- integer atoms: out of range
+      case int32.int v =>
         have hr : ¬ int32InRange o.enc o.bl v := by
           intro h
-          rw [(rangeOk_iff o.enc o.bl hbl v).mpr h] at hp
-          simp at hp
+          rw [(rangeOk_iff o.enc o.bl hbl v).mpr h] at hacc
+          cases hacc
         have hrej := fun (s : EncState) => emplaceAtomic_int32_reject o.enc hk o.bl hbl v hr o.hl none s
-        simp [lookupV, hl, Obj.toParam, encodeParam, encodeDop, encodeDct, typeAdmits, bind, run_bind, run_modifyS,
-          run_ite, hrej]
-      | flt b =>
-        simp [lookupV, hl, Obj.toParam, encodeParam, encodeDop, typeAdmits, bind, run_bind, run_modifyS, run_raise, run_ite]
-      | bytes b =>
-        simp [lookupV, hl, Obj.toParam, encodeParam, encodeDop, typeAdmits, bind, run_bind, run_modifyS, run_raise, run_ite]
-      | str b =>
-        simp [lookupV, hl, Obj.toParam, encodeParam, encodeDop, typeAdmits, bind, run_bind, run_modifyS, run_raise, run_ite]
+        refine ⟨.encode, ?_, ?_, Or.inl rfl⟩
+        rotate_left
+        · simp [lookupV, hl, Obj.toParam, Obj.bt, hkind, encodeParam, encodeDop, encodeDct, typeAdmits, bind, run_bind,
+            run_modifyS, hrej]
+          rfl
+      case uint32.int v =>
+        have hr : ¬ (0 ≤ v ∧ v < 2 ^ o.bl) := by
+          intro h
+          simp [h.1, h.2] at hacc
+        obtain ⟨e, he, hrej⟩ := emplaceAtomic_uint32_reject o.enc hk o.bl v hr o.hl
+        refine ⟨e, ?_, ?_, he⟩
+        rotate_left
+        · simp [lookupV, hl, Obj.toParam, Obj.bt, hkind, encodeParam, encodeDop, encodeDct, typeAdmits, bind, run_bind,
+            run_modifyS, hrej]
+          rfl
+      -- every other atom: wrong Python type
+      all_goals
+        refine ⟨.encode, ?_, ?_, Or.inl rfl⟩
+        rotate_left
+        · simp [lookupV, hl, Obj.toParam, Obj.bt, hkind, encodeParam, encodeDop, typeAdmits, bind, run_bind, run_modifyS, run_raise]
+          rfl
 
 /-- if some object of the list has no representable value, the first loop of the composite encoder fails
-    with `EncodeError` -/
+    with `EncodeError` (or `OdxError` for a negative unsigned value) -/
 theorem encodeParams_objs_bad (os : List Obj) (hok : ∀ o ∈ os, o.ok) (values : List (String × PVal)) (eop : Bool)
     (extra : Nat) (hbad : ∃ o ∈ os, o.pick values = none) :
-    ∀ (s : EncState), ∃ s', encodeParams eop values (os.length + 2 + extra) (os.map Obj.toParam) s true =
-      .error (.encode, s') := by
+    ∀ (s : EncState), ∃ e s', encodeParams eop values (os.length + 2 + extra) (os.map Obj.toParam) s true =
+      .error (e, s') ∧ EncErr e := by
   induction os with
   | nil => obtain ⟨o, ho, _⟩ := hbad; cases ho
   | cons o rest ih =>
@@ -78,7 +135,7 @@ theorem encodeParams_objs_bad (os : List Obj) (hok : ∀ o ∈ os, o.ok) (values
     cases hp : o.pick values with
     | none =>
       -- this object is the one that is rejected: either by the "required parameter" check or by its own encoder
-      obtain ⟨s', hbadp⟩ := encodeParam_obj_bad o ho values hp (rest.length + extra) sm
+      obtain ⟨e, s', hbadp, he⟩ := encodeParam_obj_bad o ho values hp (rest.length + extra) sm
       rw [e1]
       simp only [List.map_cons, encodeParams, Obj.toParam]
       simp only [Obj.toParam] at hbadp
@@ -86,36 +143,42 @@ theorem encodeParams_objs_bad (os : List Obj) (hok : ∀ o ∈ os, o.ok) (values
       cases hl : lookup o.name values with
       | none =>
         by_cases hre : rest.isEmpty = true
-        · simp [bind, run_bind, run_modifyS, run_ite, hre, odxraise]
+        · refine ⟨.encode, ?_, ?_, Or.inl rfl⟩
+          rotate_left
+          · simp [bind, run_bind, run_modifyS, hre, odxraise]
+            rfl
         · have hre' : rest.isEmpty = false := by simpa using hre
-          simp [bind, run_bind, run_modifyS, run_ite, hre', odxraise]
+          refine ⟨.encode, ?_, ?_, Or.inl rfl⟩
+          rotate_left
+          · simp [bind, run_bind, hre', odxraise]
+            rfl
       | some pv =>
-        refine ⟨s', ?_⟩
+        refine ⟨e, s', ?_, he⟩
         by_cases hre : rest.isEmpty = true
         · have hsm' : sm = { s with isEndOfPdu := eop } := by simp [sm, hre]
           simp only [bind, List.isEmpty_map, hre, if_true, run_bind, run_modifyS, Option.isNone_some, Bool.and_false,
-            Bool.false_eq_true, if_false, pure, run_pure]
+            Bool.false_eq_true, if_false]
           rw [← hsm', hbadp]
         · have hsm' : sm = s := by simp [sm, hre]
           have hre' : rest.isEmpty = false := by simpa using hre
           simp only [bind, List.isEmpty_map, hre', Bool.false_eq_true, if_false, run_bind, Option.isNone_some,
-            Bool.and_false, pure, run_pure]
+            Bool.and_false]
           rw [← hsm', hbadp]
     | some v =>
       -- this object is fine; the bad one comes later
       obtain ⟨hl, hr⟩ := Obj.pick_some values o ho v hp
-      have hlV : lookupV o.name values = some (.atom (.int v)) := by simp only [lookupV, hl]
+      have hlV : lookupV o.name values = some (.atom v) := by simp only [lookupV, hl]
       have hstep := encodeParam_obj o ho v hr (rest.length + extra) sm
       have hbad' : ∃ o' ∈ rest, o'.pick values = none := by
         obtain ⟨o', ho', hp'⟩ := hbad
         rcases List.mem_cons.mp ho' with h | h
         · subst h; rw [hp] at hp'; cases hp'
         · exact ⟨o', h, hp'⟩
-      obtain ⟨s', hrun⟩ := ih (fun x hx => hok x (List.mem_cons_of_mem _ hx)) hbad' (encStep o v sm)
-      refine ⟨s', ?_⟩
+      obtain ⟨e, s', hrun, he⟩ := ih (fun x hx => hok x (List.mem_cons_of_mem _ hx)) hbad' (encStep o v sm)
+      refine ⟨e, s', ?_, he⟩
       rw [e1]
       simp only [List.map_cons, encodeParams, Obj.toParam]
-      simp only [bind, hl, hlV, Option.isNone_some, Bool.and_false, Bool.false_eq_true, if_false, pure, run_pure]
+      simp only [bind, hl, hlV, Option.isNone_some, Bool.and_false, Bool.false_eq_true, if_false]
       simp only [Obj.toParam] at hstep hrun
       rw [e2] at hrun ⊢
       by_cases hre : rest.isEmpty = true
@@ -141,21 +204,22 @@ theorem encodeMessage_flat_unknown (os : List Obj) (values : List (String × PVa
   simp only [encodeDop, encodeComposite, bind, pure, run_bind, run_getS, run_modifyS, run_pure, run_ite, hunk,
     if_true, odxraise, ne_eq, not_true_eq_false, if_false]
 
-/-- `Request.encode` when some object has no representable value: `EncodeError` -/
+/-- `Request.encode` when some object has no representable value: `EncodeError` / `OdxError` -/
 theorem encodeMessage_flat_bad (os : List Obj) (hlen : os.length ≤ 4000) (hok : ∀ o ∈ os, o.ok)
     (values : List (String × PVal)) (trig : Option Bytes)
     (hknown : values.any (fun kv => !((os.map Obj.toParam).any fun p => p.name == kv.1)) = false)
     (hbad : ∃ o ∈ os, o.pick values = none) :
-    encodeMessage none (os.map Obj.toParam) (.dict values) trig true = .error .encode := by
+    ∃ e, encodeMessage none (os.map Obj.toParam) (.dict values) trig true = .error e ∧ EncErr e := by
   have hf1 : modelFuel = (os.length + 2 + (4092 - os.length)) + 1 + 1 := by unfold modelFuel; omega
-  obtain ⟨s', hrun⟩ := encodeParams_objs_bad os hok values true (4092 - os.length) hbad
+  obtain ⟨e, s', hrun, he⟩ := encodeParams_objs_bad os hok values true (4092 - os.length) hbad
     { trig := trig, isEndOfPdu := false }
+  refine ⟨e, ?_, he⟩
   unfold encodeMessage
   rw [hf1]
   simp only [encodeDop, encodeComposite, bind, pure, run_bind, run_getS, run_modifyS, run_pure, run_ite, hknown,
     Bool.false_eq_true, if_false, ne_eq, not_true_eq_false]
   have hrun' : encodeParams true values (os.length + 2 + (4092 - os.length)) (os.map Obj.toParam)
-      { trig := trig, isEndOfPdu := false } true = .error (.encode, s') := hrun
+      { trig := trig, isEndOfPdu := false } true = .error (e, s') := hrun
   rw [hrun']
 
 end OdxVerif.Codec
